@@ -1,7 +1,9 @@
 //! Deterministic simulation of anemo networks. See /verif/DESIGN.md.
 
 pub mod choice;
+pub mod adversary;
 pub mod fabric;
+pub mod model;
 pub mod runner;
 pub mod scen;
 pub mod world;
